@@ -474,6 +474,17 @@ def run_orphan_case(case):
                         return ("pending-child-moved-between-parents-expunged", "pending child %d moved from parent %d to parent %d (both delete-orphan): the backref's removal from the old collection expunges it as an orphan after the save-update cascade of the append has already run; it is in the new collection but not in the session, and flush skips it" % (op["k"], ps.index(oldp), op["p"]))
                     if ks[op["k"]] not in sess or ss[op["k"]] not in sess:
                         return ("attach-reach", "child %d appended to a parent in the session: child / sub-child in session = %s / %s (save-update cascade)" % (op["k"], ks[op["k"]] in sess, ss[op["k"]] in sess))
+            elif k == "readd":
+                # attach a new child through the NON cascading many-to-one side, then add the
+                # parent (already in the session) again: the save-update cascade must reach it
+                kid = ks[op["k"]]
+                kst, pst = sa.inspect(kid), sa.inspect(ps[op["p"]])
+                if kst.transient and (pst.pending or pst.persistent) and ps[op["p"]] not in sess.deleted:
+                    ps[op["p"]].kids  # collection loaded (an unloaded one only queues a pending mutation)
+                    kid.parent = ps[op["p"]]
+                    sess.add(ps[op["p"]])
+                    if kid not in sess or ss[op["k"]] not in sess:
+                        return ("readd-reach", "child %d attached by child.parent = p%d (no backref cascade) and session.add(parent) called again: child / sub-child in session = %s / %s" % (op["k"], op["p"], kid in sess, ss[op["k"]] in sess))
             elif k == "unplain":
                 if qs[0] in ps[0].plain:
                     ps[0].plain.remove(qs[0])
@@ -519,14 +530,143 @@ def run_orphan_case(case):
         sess.close()
 
 
+def m2o_env():
+    if "m2o" in _ENV:
+        return _ENV["m2o"]
+    import sqlalchemy as sa
+    from sqlalchemy import orm
+    from sqlalchemy.pool import StaticPool
+
+    Base = orm.declarative_base()
+
+    class MU(Base):
+        __tablename__ = "mu"
+        id = sa.Column(sa.Integer, primary_key=True)
+        pref_id = sa.Column(sa.ForeignKey("mpref.id"))
+        pref = orm.relationship("MPref", cascade="all, delete-orphan", single_parent=True, back_populates="user")
+
+    class MPref(Base):
+        __tablename__ = "mpref"
+        id = sa.Column(sa.Integer, primary_key=True)
+        data = sa.Column(sa.Integer)
+        user = orm.relationship(MU, back_populates="pref", uselist=False)
+        extras = orm.relationship("MExtra", cascade="all, delete-orphan")
+
+    class MExtra(Base):
+        __tablename__ = "mextra"
+        id = sa.Column(sa.Integer, primary_key=True)
+        pref_id = sa.Column(sa.ForeignKey("mpref.id"))
+        subs = orm.relationship("MSub", cascade="all, delete-orphan")
+
+    class MSub(Base):
+        __tablename__ = "msub"
+        id = sa.Column(sa.Integer, primary_key=True)
+        extra_id = sa.Column(sa.ForeignKey("mextra.id"))
+
+    eng = sa.create_engine("sqlite://", poolclass=StaticPool)
+    Base.metadata.create_all(eng)
+    _ENV["m2o"] = (MU, MPref, MExtra, MSub, eng, Base)
+    return _ENV["m2o"]
+
+
+def run_m2o_case(case):
+    """many-to-one delete-orphan (single_parent) whose target has its own delete cascade: a
+    de-associated target — clean or dirty in the same flush — is deleted with everything below it"""
+    import sqlalchemy as sa
+    from sqlalchemy import orm
+
+    MU, MPref, MExtra, MSub, eng, Base = m2o_env()
+    with eng.begin() as c:
+        for t in reversed(Base.metadata.sorted_tables):
+            c.execute(t.delete())
+    sess = orm.Session(eng, autoflush=False)
+    try:
+        us = [MU(id=i + 1) for i in range(2)]
+        prefs = [MPref(id=i + 1, data=0) for i in range(4)]
+        nid = [100]
+        for p in prefs:
+            for _ in range(2):
+                e = MExtra(id=nid[0])
+                nid[0] += 1
+                e.subs.append(MSub(id=nid[0]))
+                nid[0] += 1
+                p.extras.append(e)
+        for i, u in enumerate(us):
+            if case["init"][i]:
+                u.pref = prefs[i]
+        sess.add_all(us)
+        sess.commit()
+        for u in us:
+            if u.pref is not None:
+                [x.subs for x in u.pref.extras]
+        nextp = 2
+        for op in case["ops"]:
+            k = op["op"]
+            u = us[op.get("u", 0)]
+            if k == "dirty" and u.pref is not None:
+                u.pref.data = (u.pref.data or 0) + 1
+            elif k == "unset":
+                u.pref = None
+            elif k == "replace" and nextp < 4:
+                u.pref = prefs[nextp]
+                nextp += 1
+            elif k == "dirty-extra" and u.pref is not None and u.pref.extras:
+                u.pref.extras[0].subs.append(MSub(id=nid[0]))
+                nid[0] += 1
+                sess.flush()  # a still-pending grandchild under a parent orphaned in the same flush is a different scenario
+            elif k == "flush":
+                sess.flush()
+        sess.flush()
+        prow = {r[0] for r in sess.execute(sa.select(MPref.__table__.c.id))}
+        urow = {r[0]: r[1] for r in sess.execute(sa.select(MU.__table__.c.id, MU.__table__.c.pref_id))}
+        erow = {r[0]: r[1] for r in sess.execute(sa.select(MExtra.__table__.c.id, MExtra.__table__.c.pref_id))}
+        srow = {r[0]: r[1] for r in sess.execute(sa.select(MSub.__table__.c.id, MSub.__table__.c.extra_id))}
+        held = {v for v in urow.values() if v is not None}
+        if prow != held:
+            return ("m2o-orphan-row", "pref rows %s, prefs referenced by a user %s (delete-orphan on the many-to-one)" % (sorted(prow), sorted(held)))
+        for eid, pid in erow.items():
+            if pid not in prow:
+                return ("m2o-orphan-row", "extra %d row survives although its pref %s was deleted as an orphan (delete cascade below the orphan)" % (eid, pid))
+        for sid, eid in srow.items():
+            if eid not in erow:
+                return ("m2o-orphan-row", "sub %d row survives although its extra %s is gone" % (sid, eid))
+        for pid in prow:
+            if sum(1 for v in erow.values() if v == pid) < 2:
+                return ("cascade-overreach", "pref %d is kept but lost extras" % pid)
+        return None
+    finally:
+        sess.rollback()
+        sess.close()
+
+
+def gen_m2o_case(rng):
+    case = {"m2o": True, "init": [rng.random() < 0.85, rng.random() < 0.6], "ops": []}
+    for _ in range(rng.randint(1, 6)):
+        c = rng.random()
+        u = rng.randrange(2)
+        if c < 0.3:
+            case["ops"].append({"op": "dirty", "u": u})
+        elif c < 0.5:
+            case["ops"].append({"op": "unset", "u": u})
+        elif c < 0.7:
+            case["ops"].append({"op": "replace", "u": u})
+        elif c < 0.85:
+            case["ops"].append({"op": "dirty-extra", "u": u})
+        else:
+            case["ops"].append({"op": "flush"})
+    return case
+
+
 def gen_orphan_case(rng):
     case = {"orphan": True, "init": [rng.choice([None, 0, 0, 1]) for _ in range(4)], "ops": []}
     for _ in range(rng.randint(1, 6)):
         c = rng.random()
         if c < 0.4:
             case["ops"].append({"op": "remove", "k": rng.randrange(4)})
-        elif c < 0.6:
+        elif c < 0.55:
             case["ops"].append({"op": "move", "k": rng.randrange(4), "p": rng.randrange(2)})
+        elif c < 0.62:
+            case["ops"].append({"op": "readd", "k": rng.randrange(4), "p": rng.randrange(2)})
         elif c < 0.7:
             case["ops"].append({"op": "unplain"})
         elif c < 0.8:
@@ -655,6 +795,19 @@ def run(ctx, deep=False):
         ctx.count("part=orphan")
         if bad:
             ctx.violation("c39:" + bad[0], case, bad[1])
+    for _ in range(1500 if thorough else 250):
+        case = gen_m2o_case(rng)
+        try:
+            with time_limit(20):
+                bad = run_m2o_case(case)
+        except Timeout:
+            bad = ("operation-does-not-terminate", "many-to-one delete-orphan sequence did not finish within 20 s")
+        except Exception as e:  # noqa: BLE001
+            bad = ("op-raised", "many-to-one delete-orphan sequence raised %s: %s" % (type(e).__name__, str(e)[:200]))
+        ctx.case(case, nontrivial=True)
+        ctx.count("part=m2o-orphan")
+        if bad:
+            ctx.violation("c39:" + bad[0], case, bad[1])
     if ctx.driver_ok():
         bad = ["cascade iter 3 1.1 - - 0", "cascade iter x 1.1.1 - - 0", "cascade frob"]
         ctx.correspond("corr/c39:malformed-rejected", [{"line": l} for l in bad], ["bad-op"] * len(bad), ctx.driver(bad))
@@ -677,6 +830,10 @@ def replay(ctx, obj):
         got = [int(co.save_update), int(co.delete), int(co.refresh_expire), int(co.merge), int(co.expunge), int(co.delete_orphan)]
         print("replay C39 options %r -> %s, rules %s" % (case["options"], got, spec_flags(case["options"])))
         return got != spec_flags(case["options"])
+    if case.get("m2o"):
+        bad = run_m2o_case(case)
+        print("replay C39 m2o-orphan %s -> %s" % (json.dumps(case), bad))
+        return bad is not None
     if case.get("orphan"):
         bad = run_orphan_case(case)
         print("replay C39 orphan %s -> %s" % (json.dumps(case), bad))
